@@ -581,8 +581,8 @@ impl TargetActorHelper {
         final(self).unavailable_dependencies == old(self).unavailable_dependencies,
         final(self).requesters == old(self).requesters,
         /*[C06.keep-pending]*/ final(self).to_execute == old(self).to_execute,
-        /*[C06.no-stale-ack,C01.ok-build,C07.blocked]*/ final(self).executed == !old(self).to_execute,
-        /*[C06.no-stale-ack,C01.ok-build,C07.blocked]*/ old(self).to_execute ==> *final(tr) == *old(tr),
+        /*[C06.no-stale-ack,C01.ok-build,C07.blocked,C01.ok-fresh]*/ final(self).executed == !old(self).to_execute,
+        /*[C06.no-stale-ack,C01.ok-build,C07.blocked,C01.ok-fresh]*/ old(self).to_execute ==> *final(tr) == *old(tr),
         /*[C04.ack]*/ !old(self).to_execute ==> bcast_word(*old(tr), *final(tr), old(self).req(kind), kind, Word::Ok { actual: true, dep_actual: actual_of(old(tr).inlog, kind).len() > 0 }),
         !old(self).to_execute && old(self).target_id == old(tr).me ==> final(tr).ids_ok == old(tr).ids_ok,
 //@end
@@ -852,7 +852,7 @@ impl BuildTargetActor {
                 /*[C08.once-local]*/ tr.starts.len() + (if self.helper.to_execute { 1nat } else { 0nat }) <= 1 + count_inval(tr.inlog),
                 count_done(tr.inlog) + (if ongoing_build_fuse.running() { 1nat } else { 0nat }) == tr.starts.len(),
                 /*[C07.no-ack-on-failure]*/ tr.n_err <= count_done(tr.inlog),
-                /*[C06.stimulus-kept]*/ stim_since(tr.inlog, tr.last_start_at, false) ==> self.helper.to_execute,
+                /*[C06.stimulus-kept,C01.ok-fresh,C07.blocked]*/ stim_since(tr.inlog, tr.last_start_at, false) ==> self.helper.to_execute,
             ensures
                 /*[C10.cancel-on-term]*/ !ongoing_build_fuse.running(),
                 /*[C04.no-early-exit]*/ tr.term_seen,
@@ -988,7 +988,7 @@ impl ServiceTargetActor {
 //@loop 0
             invariant_except_break
                 // a loop that never exits satisfies every postcondition: the termination event must end this iteration
-                /*[C10.actor-exit]*/ !tr.term_seen,
+                /*[C10.actor-exit,C11.stop-at-exit]*/ !tr.term_seen,
             invariant
                 /*[C04.nopanic]*/ self.helper.wf(), self.helper.same_static(&h0), self.target == t0,
                 /*[C01.identity]*/ self.helper.target_id == tr.me && tr.ids_ok,
@@ -1000,13 +1000,13 @@ impl ServiceTargetActor {
                 /*[C04.ack]*/ told_if(&self.helper, *tr, ExecutionKind::Service, self.helper.executed && !self.helper.to_execute),
                 /*[C11.service-true]*/ oks_actual(*tr, ExecutionKind::Service, true),
                 /*[C11.service-true]*/ only_ok_actual(*tr, ExecutionKind::Build, false),
-                /*[C10.reap-service,C11.single-instance]*/ reap_inv(self.service_process, *tr),
+                /*[C10.reap-service,C11.single-instance,C11.stop-at-exit]*/ reap_inv(self.service_process, *tr),
                 /*[C04.no-unrequest]*/ tr.sent_unreq ==> nonempty(tr.unreq),
                 /*[C08.no-inval-oneshot]*/ tr.sent_inval ==> count_inval(tr.inlog) > 0,
                 /*[C04.request-deps]*/ self.helper.req(ExecutionKind::Service).len() > 0 ==> deps_requested(&self.helper, *tr, ExecutionKind::Build) && deps_requested(&self.helper, *tr, ExecutionKind::Service),
                 /*[C08.once-local]*/ tr.spawn_calls + (if self.helper.to_execute { 1nat } else { 0nat }) <= 1 + count_inval(tr.inlog),
                 /*[C07.no-ack-on-failure]*/ tr.n_err <= tr.spawn_calls,
-                /*[C06.stimulus-kept]*/ stim_since(tr.inlog, tr.last_start_at, true) ==> self.helper.to_execute,
+                /*[C06.stimulus-kept,C01.ok-fresh,C07.blocked]*/ stim_since(tr.inlog, tr.last_start_at, true) ==> self.helper.to_execute,
             ensures
                 /*[C04.no-early-exit]*/ tr.term_seen,
 //@loopbody
@@ -1093,7 +1093,7 @@ impl AggregateTargetActor {
         let ghost h0 = self.helper;
 //@loop 0
             invariant_except_break
-                /*[C10.actor-exit]*/ !tr.term_seen,
+                /*[C10.actor-exit,C11.stop-at-exit]*/ !tr.term_seen,
             invariant
                 /*[C04.nopanic]*/ self.helper.wf(), self.helper.same_static(&h0),
                 /*[C04.nopanic]*/ dependencies@.contains_key(ExecutionKind::Build) && dependencies@.contains_key(ExecutionKind::Service),
